@@ -328,6 +328,6 @@ end
 /-- The same request with every resolver answering synchronously (and any schedule: it is never
     consulted). -/
 def Request.allSync (rq : Request) (sched : List Nat) : Request :=
-  { mutation := rq.mutation, fields := Field.allSyncL rq.fields, sched := sched }
+  { mutation := rq.mutation, fields := Field.allSyncL rq.fields, sched := sched, settle := rq.settle }
 
 end ApiFu.C02
